@@ -946,7 +946,9 @@ fn case_chain(rng: &mut Rng, dbg: bool, len: usize) -> Rec {
             let id = sim.top() + 1;
             let b = sim.gen_chain_block(rng, id);
             sim.wind(b, gp, true);
-        } else if r < 62 && allow_unwind {
+        } else if r < 62 && allow_unwind && sim.top() > sim.maxseen.saturating_sub(gp) {
+            // reorganisations stay inside the window: the blocks wound afterwards have ids above
+            // (highest id ever wound) - gp, which is what the ledger oracle's window assumes
             let b = sim.stack.pop().unwrap();
             sim.unwind(b, gp, true);
         } else if r < 94 {
@@ -1501,6 +1503,9 @@ fn case_real_blocks(rng: &mut Rng, dbg: bool, gp: u64, blocks: &[Block]) -> Rec 
         if sim.dead {
             return sim.rec;
         }
+        if sim.top() <= sim.maxseen.saturating_sub(gp) {
+            break;
+        }
         let b = sim.stack.pop().unwrap();
         sim.unwind(b, gp, true);
     }
@@ -1509,7 +1514,8 @@ fn case_real_blocks(rng: &mut Rng, dbg: bool, gp: u64, blocks: &[Block]) -> Rec 
         let bal = sim.w.get_available_balance();
         sim.create(CreateCall { keys: vec![pk2], payments: vec![bal / 2 + 1], fee: 0, latest, gp }, true);
     }
-    for b in &blocks[cut - depth..] {
+    let resume = sim.stack.len();
+    for b in &blocks[resume..] {
         if sim.dead {
             return sim.rec;
         }
@@ -1535,7 +1541,7 @@ fn main() {
     for which in 0..4 {
         recs.push(case_scripted(which, dbg));
     }
-    let n_chain = if thorough { 1500 } else { 220 };
+    let n_chain = if thorough { 1300 } else { 220 };
     for i in 0..n_chain {
         let len = match i % 3 {
             0 => rng.range(6, 14),
@@ -1544,7 +1550,7 @@ fn main() {
         } as usize;
         recs.push(case_chain(&mut rng, dbg, len));
     }
-    let n_raw = if thorough { 1500 } else { 220 };
+    let n_raw = if thorough { 1300 } else { 220 };
     for i in 0..n_raw {
         let len = if i % 2 == 0 { rng.range(5, 15) } else { rng.range(15, 40) } as usize;
         recs.push(case_raw(&mut rng, dbg, len));
